@@ -1,18 +1,45 @@
 (** Model of the client-side multiplexing core (C01, C06, C13): lib/go/registry.go
-    (Register / Unregister / Execute / dispatch) and fAdapterTransport.Request (register, send in
-    its own goroutine, select on result / send error / deadline, deferred Unregister), as an
-    interleaving small-step system. Actors: callers (one goroutine each plus its send goroutine),
-    the clock, and the single reader (adapter read loop / NATS subscription callback), cut at the
-    points where they touch shared state. [step] returns None for an event that is not enabled
-    (e.g. a goroutine blocked on a channel); the [blocking] flag selects the dispatch of the
-    pinned tree (blocking channel send) instead of the repaired one (non-blocking send, drop). *)
+    (Register / Unregister / Execute / dispatch) and the Request function of the two transports
+    built on it, as an interleaving small-step system:
+
+    - [KAdapter]: fAdapterTransport.Request (register - error ignored -, send in its own
+      goroutine, select on result / send error / context deadline, deferred Unregister);
+    - [KNats]: fNatsTransport.Request (IsOpen check, len(data)==4 shortcut, Register whose error
+      IS returned, deferred Unregister, checkMessageSize AFTER Register, synchronous
+      PublishRequest, select on result / time.After(ctx.Timeout()), the empty frame
+      [serviceNotAvailable] mapped to SERVICE_NOT_AVAILABLE) and fNatsTransport.handler (a status
+      503 message is routed through registry.dispatch(opid, serviceNotAvailable)).
+
+    Actors: callers (one goroutine each plus, on the adapter, its send goroutine), the clock, the
+    environment (transport open or not, publish succeeds or not) and the single reader (adapter
+    read loop / NATS subscription callback), cut at the points where they touch shared state.
+    [step] returns None for an event that is not enabled (e.g. a goroutine blocked on a channel);
+    the [blocking] flag selects the dispatch of the pinned tree (blocking channel send) instead of
+    the repaired one (non-blocking send, drop). *)
 From Coq Require Import ZArith List Bool Arith.
 Import ListNotations.
 Open Scope Z_scope.
 
+Inductive kind := KAdapter | KNats.
+
+(** a frame is (op id it is dispatched under, identity of its content). The content identity
+    [na_tag] stands for the empty byte string [serviceNotAvailable] (nats_transport.go); a frame
+    with that content cannot come out of Execute (an empty frame has no headers), the model lets
+    it through [EArrive] all the same (more behaviours than the code, never fewer). *)
 Record frame := { f_op : Z; f_tag : Z }.
-Inductive took := TResult | TTimeout | TSendErr.
-Inductive outcome := OOk (f : frame) | OTimedOut | OSendErr.
+Definition na_tag : Z := -1.
+Definition is_na (f : frame) : bool := f_tag f =? na_tag.
+Definition na_frame (op : Z) : frame := {| f_op := op; f_tag := na_tag |}.
+
+Inductive took := TResult | TTimeout | TSendErr | TTooLarge.
+Inductive outcome :=
+| OOk (f : frame) | OTimedOut
+| OSendErr                               (* adapter: Write/Flush error; NATS: PublishRequest error *)
+| ONotOpen                               (* NATS: !IsOpen() *)
+| OEmpty                                 (* NATS: len(data) == 4: (nil, nil) *)
+| ORegErr                                (* NATS: Register's error (op id in flight, or malformed) returned *)
+| ONotAvail                              (* NATS: the result is serviceNotAvailable *)
+| OTooLarge.                             (* NATS: checkMessageSize failed (after Register) *)
 Inductive cphase :=
 | CNew
 | CParked                                (* registered, not yet in the select *)
@@ -20,9 +47,12 @@ Inductive cphase :=
 | CTook (t : took) (got : option frame)  (* left the select; the deferred Unregister has not run *)
 | CDone (o : outcome).
 Inductive sendst := SNone | SParked | SOk | SFailed.
+(** what Request looks at in its [data] argument (NATS only) *)
+Inductive dkind := DNormal | DEmpty (* len = 4 *) | DTooLarge (* len > natsMaxMessageSize *).
 
 Record caller := { c_op : Z; c_phase : cphase; c_chan : list frame (* capacity 1 *);
-                   c_send : sendst; c_deadline : bool (* ToContext: Timeout() > 0 *) }.
+                   c_send : sendst; c_deadline : bool (* ToContext: Timeout() > 0; adapter only *);
+                   c_data : dkind }.
 Inductive reader := RIdle | RLooked (j : nat) (f : frame).
 Record st := { callers : nat -> caller; ncallers : nat;
                reg : list (Z * nat);      (* channels map: op id -> the caller whose channel it is *)
@@ -35,7 +65,10 @@ Inductive ev :=
 | EArrive (f : frame)
 | EDeliver
 | ETake (i : nat) (t : took)
-| EUnregister (i : nat).
+| EUnregister (i : nat)
+| ENotOpen (i : nat)          (* NATS: Request finds the transport not open *)
+| EPublishFail (i : nat)      (* NATS: PublishRequest returns an error *)
+| EArrive503 (op : Z).        (* NATS: status 503 message on <inbox>.<op> *)
 
 Fixpoint reg_lookup (r : list (Z * nat)) (k : Z) : option nat :=
   match r with
@@ -51,11 +84,11 @@ Fixpoint reg_remove (r : list (Z * nat)) (k : Z) : list (Z * nat) :=
 Definition upd (cs : nat -> caller) (i : nat) (c : caller) : nat -> caller :=
   fun j => if Nat.eqb j i then c else cs j.
 Definition set_phase (c : caller) (p : cphase) : caller :=
-  {| c_op := c_op c; c_phase := p; c_chan := c_chan c; c_send := c_send c; c_deadline := c_deadline c |}.
+  {| c_op := c_op c; c_phase := p; c_chan := c_chan c; c_send := c_send c; c_deadline := c_deadline c; c_data := c_data c |}.
 Definition set_chan (c : caller) (ch : list frame) : caller :=
-  {| c_op := c_op c; c_phase := c_phase c; c_chan := ch; c_send := c_send c; c_deadline := c_deadline c |}.
+  {| c_op := c_op c; c_phase := c_phase c; c_chan := ch; c_send := c_send c; c_deadline := c_deadline c; c_data := c_data c |}.
 Definition set_send (c : caller) (s : sendst) : caller :=
-  {| c_op := c_op c; c_phase := c_phase c; c_chan := c_chan c; c_send := s; c_deadline := c_deadline c |}.
+  {| c_op := c_op c; c_phase := c_phase c; c_chan := c_chan c; c_send := s; c_deadline := c_deadline c; c_data := c_data c |}.
 Definition with_callers (s : st) (cs : nat -> caller) : st :=
   {| callers := cs; ncallers := ncallers s; reg := reg s; rd := rd s |}.
 Definition with_reg (s : st) (r : list (Z * nat)) : st :=
@@ -63,35 +96,92 @@ Definition with_reg (s : st) (r : list (Z * nat)) : st :=
 Definition with_rd (s : st) (r : reader) : st :=
   {| callers := callers s; ncallers := ncallers s; reg := reg s; rd := r |}.
 
-Definition outcome_of (t : took) (got : option frame) : option outcome :=
+(** what Request returns once the deferred Unregister has run *)
+Definition outcome_of (tk : kind) (t : took) (got : option frame) : option outcome :=
   match t, got with
-  | TResult, Some f => Some (OOk f)
+  | TResult, Some f =>
+    match tk with
+    | KNats => if is_na f then Some ONotAvail else Some (OOk f)   (* bytes.Equal(result, serviceNotAvailable) *)
+    | KAdapter => Some (OOk f)
+    end
   | TTimeout, _ => Some OTimedOut
   | TSendErr, _ => Some OSendErr
+  | TTooLarge, _ => Some OTooLarge
   | TResult, None => None
   end.
 
-Definition step (blocking : bool) (s : st) (e : ev) : option st :=
+(** registry.dispatch(op, frame): lookup under RLock; a miss is logged and dropped *)
+Definition lookup_step (s : st) (f : frame) : option st :=
+  match rd s with
+  | RIdle => match reg_lookup (reg s) (f_op f) with
+             | Some j => Some (with_rd s (RLooked j f))
+             | None => Some s                       (* unregistered context: dropped *)
+             end
+  | RLooked _ _ => None                             (* the single reader is busy *)
+  end.
+
+Definition step (tk : kind) (blocking : bool) (s : st) (e : ev) : option st :=
   match e with
   | ERegister i =>
     if negb (Nat.ltb i (ncallers s)) then None else
     let c := callers s i in
     match c_phase c with
     | CNew =>
-      (* Register: an op id already in flight is an error, which the adapter transport ignores *)
-      let r := match reg_lookup (reg s) (c_op c) with
-               | Some _ => reg s
-               | None => (c_op c, i) :: reg s
-               end in
-      Some (with_reg (with_callers s (upd (callers s) i (set_phase c CParked))) r)
+      match tk with
+      | KAdapter =>
+        (* Register: a malformed op id (modelled as a negative number; getOpID fails) or an op id
+           already in flight is an error, which the adapter transport ignores; nothing is registered *)
+        let r := if c_op c <? 0 then reg s else
+                 match reg_lookup (reg s) (c_op c) with
+                 | Some _ => reg s
+                 | None => (c_op c, i) :: reg s
+                 end in
+        Some (with_reg (with_callers s (upd (callers s) i (set_phase c CParked))) r)
+      | KNats =>
+        match c_data c with
+        | DEmpty => Some (with_callers s (upd (callers s) i (set_phase c (CDone OEmpty))))
+        | _ =>
+          if c_op c <? 0 then  (* malformed op id: Register refuses it *)
+            Some (with_callers s (upd (callers s) i (set_phase c (CDone ORegErr)))) else
+          match reg_lookup (reg s) (c_op c) with
+          | Some _ => (* Register fails; returned BEFORE the deferred Unregister is installed *)
+            Some (with_callers s (upd (callers s) i (set_phase c (CDone ORegErr))))
+          | None =>
+            Some (with_reg (with_callers s (upd (callers s) i (set_phase c CParked))) ((c_op c, i) :: reg s))
+          end
+        end
+      end
     | _ => None
+    end
+  | ENotOpen i =>
+    if negb (Nat.ltb i (ncallers s)) then None else
+    let c := callers s i in
+    match tk, c_phase c with
+    | KNats, CNew => Some (with_callers s (upd (callers s) i (set_phase c (CDone ONotOpen))))
+    | _, _ => None
     end
   | ERelease i =>
     if negb (Nat.ltb i (ncallers s)) then None else
     let c := callers s i in
     match c_phase c with
-    | CParked => Some (with_callers s (upd (callers s) i (set_send (set_phase c CSelect) SParked)))
+    | CParked =>
+      match tk with
+      | KAdapter => Some (with_callers s (upd (callers s) i (set_send (set_phase c CSelect) SParked)))
+      | KNats =>
+        match c_data c with
+        | DTooLarge => Some (with_callers s (upd (callers s) i (set_phase c (CTook TTooLarge None))))
+        | _ => (* PublishRequest returned nil; the caller enters its select *)
+          Some (with_callers s (upd (callers s) i (set_send (set_phase c CSelect) SOk)))
+        end
+      end
     | _ => None
+    end
+  | EPublishFail i =>
+    if negb (Nat.ltb i (ncallers s)) then None else
+    let c := callers s i in
+    match tk, c_phase c, c_data c with
+    | KNats, CParked, DNormal => Some (with_callers s (upd (callers s) i (set_phase c (CTook TSendErr None))))
+    | _, _, _ => None
     end
   | ESendOk i =>
     if negb (Nat.ltb i (ncallers s)) then None else
@@ -107,13 +197,11 @@ Definition step (blocking : bool) (s : st) (e : ev) : option st :=
     | SParked => Some (with_callers s (upd (callers s) i (set_send c SFailed)))
     | _ => None
     end
-  | EArrive f =>
-    match rd s with
-    | RIdle => match reg_lookup (reg s) (f_op f) with
-               | Some j => Some (with_rd s (RLooked j f))
-               | None => Some s                       (* unregistered context: dropped *)
-               end
-    | RLooked _ _ => None                             (* the single reader is busy *)
+  | EArrive f => lookup_step s f
+  | EArrive503 op =>
+    match tk with
+    | KNats => lookup_step s (na_frame op)          (* handler -> dispatch(op, serviceNotAvailable) *)
+    | KAdapter => None
     end
   | EDeliver =>
     match rd s with
@@ -136,13 +224,17 @@ Definition step (blocking : bool) (s : st) (e : ev) : option st :=
                    | f :: _ => Some (with_callers s (upd (callers s) i (set_chan (set_phase c (CTook TResult (Some f))) [])))
                    | [] => None
                    end
-      | TTimeout => if c_deadline c
-                    then Some (with_callers s (upd (callers s) i (set_phase c (CTook TTimeout None))))
-                    else None
+      | TTimeout =>
+        (* adapter: ctx.Done() of ToContext, which has a deadline iff Timeout() > 0;
+           NATS: time.After(ctx.Timeout()) always fires *)
+        if match tk with KAdapter => c_deadline c | KNats => true end
+        then Some (with_callers s (upd (callers s) i (set_phase c (CTook TTimeout None))))
+        else None
       | TSendErr => match c_send c with
                     | SFailed => Some (with_callers s (upd (callers s) i (set_phase c (CTook TSendErr None))))
                     | _ => None
                     end
+      | TTooLarge => None                             (* not a branch of the select *)
       end
     | _ => None
     end
@@ -151,7 +243,7 @@ Definition step (blocking : bool) (s : st) (e : ev) : option st :=
     let c := callers s i in
     match c_phase c with
     | CTook t got =>
-      match outcome_of t got with
+      match outcome_of tk t got with
       | Some o => Some (with_reg (with_callers s (upd (callers s) i (set_phase c (CDone o))))
                                  (reg_remove (reg s) (c_op c)))
       | None => None
@@ -160,13 +252,24 @@ Definition step (blocking : bool) (s : st) (e : ev) : option st :=
     end
   end.
 
-Fixpoint run (blocking : bool) (s : st) (evs : list ev) : option st :=
+Fixpoint run (tk : kind) (blocking : bool) (s : st) (evs : list ev) : option st :=
   match evs with
   | [] => Some s
-  | e :: r => match step blocking s e with Some s' => run blocking s' r | None => None end
+  | e :: r => match step tk blocking s e with Some s' => run tk blocking s' r | None => None end
   end.
 
-(** initial state: n callers with the given op ids and deadline flags *)
-Definition init (ops : nat -> Z) (dl : nat -> bool) (n : nat) : st :=
-  {| callers := fun i => {| c_op := ops i; c_phase := CNew; c_chan := []; c_send := SNone; c_deadline := dl i |};
+(** initial state: n callers with the given op ids, deadline flags and data kinds *)
+Definition initd (ops : nat -> Z) (dl : nat -> bool) (dk : nat -> dkind) (n : nat) : st :=
+  {| callers := fun i => {| c_op := ops i; c_phase := CNew; c_chan := []; c_send := SNone;
+                            c_deadline := dl i; c_data := dk i |};
      ncallers := n; reg := []; rd := RIdle |}.
+Definition init (ops : nat -> Z) (dl : nat -> bool) (n : nat) : st := initd ops dl (fun _ => DNormal) n.
+
+(** the frames that reached dispatch during a run, in order *)
+Fixpoint arrivals (evs : list ev) : list frame :=
+  match evs with
+  | [] => []
+  | EArrive f :: r => f :: arrivals r
+  | EArrive503 op :: r => na_frame op :: arrivals r
+  | _ :: r => arrivals r
+  end.
